@@ -45,9 +45,19 @@ out.append('')
 mr = os.path.join(HERE, 'mutants', 'RESULTS.json')
 if os.path.exists(mr):
     R = json.load(open(mr))
-    out.append('### 9.3 Mutant corpus (every mutant still compiles and passes the 16 tests)\n')
+    B = {}
+    bp = os.path.join(HERE, 'mutants', 'BUILD.json')
+    if os.path.exists(bp):
+        B = json.load(open(bp))
+    npass = sum(1 for i in R if B.get(i) == 'TESTS-PASS')
+    out.append('### 9.3 Mutant corpus\n')
+    out.append('Each mutant is applied to a scratch copy and the owning check is run on it '
+               '(`tools/runmutants.py`); independently each one is built and `make check` is run '
+               '(`tools/buildmutants.py`, results in `mutants/BUILD.json`): all %d compile, **%d pass the '
+               '16 tests** (changes the suite cannot see) and %d are also caught by the suite (kept '
+               'only as proof that the rule fires; marked "suite" below).\n' % (len(R), npass, len(R) - npass))
     props = sorted(set(v['property'] for v in R.values()))
-    out.append('| property | breaking mutants killed | behaviour-preserving mutants silent | not as expected |')
+    out.append('| property | breaking mutants killed (of which invisible to the test suite) | behaviour-preserving mutants silent | not as expected |')
     out.append('|---|---|---|---|')
     for p in props:
         vs = [v for v in R.values() if v['property'] == p]
@@ -56,13 +66,17 @@ if os.path.exists(mr):
         s_ = sum(1 for v in vs if v['kind'] == 'preserving' and v['verdict'] == 'SILENT-OK')
         sb = sum(1 for v in vs if v['kind'] == 'preserving')
         bad = [i for i, v in R.items() if v['property'] == p and v['verdict'] not in ('KILLED', 'SILENT-OK')]
-        out.append('| %s | %d / %d | %d / %d | %s |' % (p, k, kb, s_, sb, ', '.join(bad) or '-'))
+        inv = sum(1 for i, v in R.items() if v['property'] == p and v['kind'] != 'preserving' and
+                  v['verdict'] == 'KILLED' and B.get(i) == 'TESTS-PASS')
+        out.append('| %s | %d / %d (%d) | %d / %d | %s |' % (p, k, kb, inv, s_, sb, ', '.join(bad) or '-'))
     out.append('')
     out.append('<details><summary>all %d mutants</summary>\n' % len(R))
-    out.append('| mutant | property | rule expected | kind | verdict | what it does |')
-    out.append('|---|---|---|---|---|---|')
+    out.append('| mutant | property | rule expected | kind | verdict | make check | what it does |')
+    out.append('|---|---|---|---|---|---|---|')
     for i, v in sorted(R.items(), key=lambda kv: (kv[1]['property'], kv[0])):
-        out.append('| %s | %s | %s | %s | %s | %s |' % (i, v['property'], v['rule'], v['kind'], v['verdict'], md(v['note'])[:120]))
+        out.append('| %s | %s | %s | %s | %s | %s | %s |' % (i, v['property'], v['rule'], v['kind'], v['verdict'],
+                                                         'pass' if B.get(i) == 'TESTS-PASS' else ('suite' if i in B else '?'),
+                                                         md(v['note'])[:120]))
     out.append('\n</details>\n')
 sr = os.path.join(HERE, 'seeded', 'RESULTS.json')
 if os.path.exists(sr):
